@@ -6,7 +6,7 @@ LEAN_MODULES = ["MpirProofs.Props.C12"]
 THEOREMS = ["Mpir.Mpq." + t for t in (
     "mpq_aors_spec", "mpq_mul_spec", "mpq_div_spec", "mpq_inv_spec", "mpq_neg_spec", "mpq_abs_spec",
     "mpq_set_spec", "mpq_swap_spec", "mpq_set_z_spec", "mpq_set_si_spec", "mpq_set_ui_spec",
-    "mpq_set_num_spec", "mpq_set_den_spec", "mpq_canonicalize_spec", "mpq_equal_iff", "mpq_mul_2exp_spec", "mpq_div_2exp_spec")]
+    "mpq_set_num_spec", "mpq_set_den_spec", "mpq_canonicalize_spec", "mpq_equal_iff", "mpq_mul_2exp_spec", "mpq_div_2exp_spec", "mpq_set_f_spec", "mpq_set_d_spec")]
 TRUSTED = ["hand-written heap model lean/Mpir/Model/Mpq.lean mirroring mpq/*.c statement by statement (tied by correspondence on every run)",
            "mpz primitives (gcd, divexact_gcd, mul, add, sub, mul_2exp) taken at their specification on Int"]
 ASSUMPTIONS = ["an mpz cell is modelled by its integer value (size field and limbs fused); mpq variables are ids into a store, aliasing = id equality",
